@@ -8,20 +8,31 @@
 EXTENDS CallCount, TLC
 CONSTANTS MaxCalls
 Ns == -2..4
-VARIABLES s, res, n0, calls
-vars == <<s, res, n0, calls>>
+VARIABLES s, res, n0, calls, runs
+vars == <<s, res, n0, calls, runs>>
 Min(a, b) == IF a < b THEN a ELSE b
-Init == \E k \in {"after_new", "before_new", "once_new"} : \E n \in Ns :
-          \E o \in Out(S0, [n |-> k, a |-> <<n>>]) : s = o.st /\ res = o.res /\ n0 = n /\ calls = 0
-Next == /\ calls < MaxCalls
-        /\ \E o \in Out(s, [n |-> "call", a |-> <<>>]) : s' = o.st /\ res' = o.res /\ calls' = calls + 1 /\ UNCHANGED n0
+\* runs: the instants at which the callback ran (Once with a lifetime of 3 ticks: the clock may jump)
+Init == \E k \in {"after_new", "before_new", "once_new"} : \E n \in Ns : \E off \in {0, -1} : \E life \in {0, 3} :
+          \E o \in Out(S0, [n |-> k, a |-> <<n, off, life>>]) :
+            s = o.st /\ res = o.res /\ n0 = n /\ calls = 0 /\ runs = <<>>
+Next == \/ /\ calls < MaxCalls
+           /\ \E o \in Out(s, [n |-> "call", a |-> <<>>]) :
+                /\ s' = o.st /\ res' = o.res /\ calls' = calls + 1 /\ UNCHANGED n0
+                /\ runs' = IF o.res.s[1] = 1 THEN Append(runs, s.now) ELSE runs
+        \/ /\ s.k = "once" /\ s.life > 0 /\ s.now < 9
+           /\ \E d \in {1, 2, 4} : \E o \in Out(s, [n |-> "tick", a |-> <<d>>]) : s' = o.st /\ res' = o.res
+           /\ UNCHANGED <<n0, calls, runs>>
 Spec == Init /\ [][Next]_vars
 Counts == CASE s.k = "after"  -> s.cnt = Max0(calls - Max0(n0))
             [] s.k = "before" -> s.cnt = Min(calls, Max0(n0))
-            [] s.k = "once"   -> s.cnt = Min(calls, 1)
+            [] s.k = "once"   -> IF s.life = 0 THEN s.cnt = Min(calls, 1)
+                                 \* a single run for as long as the entry lives: runs are a lifetime apart
+                                 ELSE /\ s.cnt = Len(runs) /\ (calls > 0 => s.cnt >= 1)
+                                      /\ \A i \in 1..Len(runs) - 1 : runs[i + 1] - runs[i] >= s.life
 \* later calls return the result of the last run; Once returns the first result
-Returns == [][ /\ (s.k = "before" => res'.v = Min(calls', Max0(n0)))
-               /\ (s.k = "once"   => res'.v = 1)
+Returns == [][ calls' = calls + 1 =>
+               /\ (s.k = "before" => res'.v = IF Max0(n0) = 0 THEN 0 ELSE Min(calls', Max0(n0)) + s.off)
+               /\ (s.k = "once"   => res'.v = s'.cnt + s.off)       \* the result of the latest run, never a fresh one
                /\ res'.s[1] \in {0, 1} ]_vars
 Patterns == UNION { [1..k -> {0, 1}] : k \in 0..4 }
 RetryBounded == \A n \in Ns : \A p \in Patterns :
